@@ -65,15 +65,18 @@ func Layout(source graph.Source, opts ...Option) graph.Layout {
 
 		// pre-processing
 		restoreSelfLoops := preprocessor.IgnoreSelfLoops(g)
+		verifStage(0, g)
 
 		// run subgraph through the pipeline
 		for _, phase := range pipeline {
 			phase.Process(g, layoutOpts.params)
+			verifStage(phase.Phase(), g)
 		}
 
 		// post-processing
 		restoreSelfLoops(g)
 		postprocessor.UnreverseEdges(g)
+		verifStage(6, g)
 
 		// collect nodes
 		for _, n := range g.Nodes {
